@@ -2,7 +2,7 @@ from typing import Any, Protocol
 
 import httpx
 
-from .auth.base import BaseAuth
+from .auth.base import BaseAuth, set_header
 from .exceptions import ClientError, HTTPError, ServerError, response_text
 
 
@@ -149,9 +149,8 @@ class HttpxTransport:
 
         # 2. Merge headers passed specifically for this request (overriding transport defaults)
         if "headers" in current_request_kwargs and isinstance(current_request_kwargs["headers"], dict):
-            prepared_headers.update(
-                {name: _header_text(value) for name, value in current_request_kwargs["headers"].items()}
-            )
+            for name, value in current_request_kwargs["headers"].items():
+                set_header(prepared_headers, name, _header_text(value))
 
         # 3. Apply authentication plugin or bearer token (which can further modify headers)
         # We pass a temporary request_args dict containing only the headers to the auth plugin,
@@ -183,7 +182,7 @@ class HttpxTransport:
                         current_request_kwargs[key] = {**dict(current or {}), **added}
         elif self._bearer_token is not None:
             # If no auth plugin, but bearer token is present, add/overwrite Authorization header.
-            prepared_headers["Authorization"] = f"Bearer {self._bearer_token}"
+            set_header(prepared_headers, "Authorization", f"Bearer {self._bearer_token}")
 
         return prepared_headers
 
